@@ -55,4 +55,8 @@ def replay(o, seed):
     if r.get("reproduced"):
         return r
     rd = ({"data": d.hex(), "schedule": [x for x in s if isinstance(x, int)], "bufsize": bs} for d, s, bs in sock_candidates(seed + 1))
-    return try_candidates("socket_reader", rd, key=lambda i, r: "socket-reader")
+    r = try_candidates("socket_reader", rd, key=lambda i, r: "socket-reader")
+    if r.get("reproduced") or not ("dechunk" in (o.get("unit") or o["name"]) or "chunked" in o["name"]):
+        return r
+    from props import C12  # chunked transfer decoding: its own segmentation sweep
+    return C12.replay(o, seed)
